@@ -246,6 +246,7 @@ class Module:
             self.is_pkg = False
         self.name = name
         self.imports: Dict[str, str] = {}
+        self.star_imports: List[str] = []
         self.functions: Dict[str, FuncInfo] = {}
         self.classes: Dict[str, ClassInfo] = {}
         self.assigns: Dict[str, ast.expr] = {}
@@ -284,6 +285,9 @@ def _collect_imports(mod: Module, stmts, into: Dict[str, str]):
         elif isinstance(n, ast.ImportFrom):
             base = _abs_import(mod, n)
             for a in n.names:
+                if a.name == "*":
+                    mod.star_imports.append(base)
+                    continue
                 into[a.asname or a.name] = f"{base}.{a.name}"
 
 
@@ -447,6 +451,10 @@ class Index:
                 return self.resolve_fq(m.imports[last], _depth + 1)
             if last in m.assigns:
                 return ("global", (m, last))
+            for star in m.star_imports:
+                r = self.resolve_fq(f"{star}.{last}", _depth + 1)
+                if r is not None and r[0] != "external":
+                    return r
             return None
         r = self.resolve_fq(head, _depth + 1)
         if r and r[0] == "class":
